@@ -102,3 +102,12 @@ Definition re_replace (r:re) (s t:list N) (limit:nat) : list N :=
 End Fuel.
 (* a pattern that is an escaped literal *)
 Fixpoint lit (x:list N) : re := match x with [] => REmpty | c :: t => RSeq (RChar c) (lit t) end.
+(* The engine under the builtins explores every automaton state at most once per haystack position; a backtracking matcher agrees with
+   that exactly when the pattern has no loop whose body can match the empty string (no epsilon cycle). For patterns with such a loop the
+   rules above are a close approximation only, and the correspondence check does not compare them (the direct-engine oracle still does). *)
+Fixpoint has_nullable_loop (r:re) : bool :=
+  match r with
+  | RStar a | RPlus a => nullable a || has_nullable_loop a
+  | RSeq a b | RAlt a b => has_nullable_loop a || has_nullable_loop b
+  | ROpt a | RGroup _ a => has_nullable_loop a
+  | _ => false end.
